@@ -39,6 +39,7 @@ type Op struct {
 	S      int       `json:"s,omitempty"`
 	T      int       `json:"t,omitempty"` // 0,1 registered types; 2 unregistered (resp only)
 	N      int       `json:"n,omitempty"`
+	A      int       `json:"a,omitempty"` // watch: authority (0 top-level, k named authority k; modulo the number configured)
 	Hold   bool      `json:"hold,omitempty"`
 	Ver    int       `json:"ver,omitempty"`
 	Nonce  int       `json:"nonce,omitempty"`
@@ -50,10 +51,14 @@ type Op struct {
 
 // Plan is a complete serialisable case.
 type Plan struct {
-	Servers      int    `json:"servers"`
-	IgnoreDel    []bool `json:"ignore_del,omitempty"`
-	Ops          []Op   `json:"ops"`
-	ReleaseAtEnd bool   `json:"release_at_end"`
+	Servers   int    `json:"servers"`
+	IgnoreDel []bool `json:"ignore_del,omitempty"`
+	// Auths: named authorities (k = 1..len) with their ordered server lists
+	// (indices modulo Servers, duplicates dropped; empty = inherits the
+	// top-level list 0..Servers-1). Absent = only the top-level authority.
+	Auths        [][]int `json:"auths,omitempty"`
+	Ops          []Op    `json:"ops"`
+	ReleaseAtEnd bool    `json:"release_at_end"`
 }
 
 // Stats are per-case counters used by the non-trivial rules.
@@ -79,6 +84,14 @@ type Stats struct {
 	GrayNoRevert      int
 	Applied           int
 	Skipped           int
+	// several authorities (C44)
+	SharedAcquire     int // an authority took a reference on a channel that another authority already held
+	SharedFallbacks   int // ... as the target of a fallback
+	SharedReverts     int // an authority reverted while another authority still used one of the lower-priority servers it left
+	SharedRevertUnsub int // ... and its names had to disappear from a usable stream of that server
+	ReleaseKeepsOpen  int // a reference was released and the channel had to stay open
+	SharedFailures    int // a stream failure observed by >= 2 authorities
+	SharedResponses   int // a response on a channel used by >= 2 authorities
 }
 
 // Report is the outcome of Execute.
@@ -93,6 +106,14 @@ type Report struct {
 }
 
 // ---------------------------------------------------------------- model ---
+//
+// Two layers, as in gRFC A71 / A47:
+//   - per management server: the (shared, reference-counted) channel with its
+//     ADS stream state and the subscription list of each type = the union of
+//     what the authorities using that server want from it;
+//   - per authority: its ordered server list, which of those channels it holds
+//     a reference on, the active one, and its resource cache.
+// A channel exists iff at least one authority holds a reference.
 
 type mWatchState struct {
 	state    int
@@ -114,14 +135,24 @@ type mServer struct {
 	stalled  bool
 	streams  int // streams granted on the current channel
 	types    [2]*mType
+	refs     map[int]bool // authorities holding a reference on the channel
 }
 
 func freshServer() *mServer {
-	s := &mServer{}
+	s := &mServer{refs: map[int]bool{}}
 	for i := range s.types {
 		s.types[i] = &mType{subs: map[string]*mWatchState{}}
 	}
 	return s
+}
+
+func (s *mServer) refIDs() []int {
+	var ids []int
+	for id := range s.refs {
+		ids = append(ids, id)
+	}
+	sort.Ints(ids)
+	return ids
 }
 
 type mRes struct {
@@ -130,7 +161,7 @@ type mRes struct {
 	status     int
 	lastErr    string
 	delIgnored bool
-	chans      map[int]bool
+	chans      map[int]bool // servers (global index) this resource is subscribed on
 	// opt: existing non-active channels on which the subscription is
 	// optional and not yet observable (the resource was first watched while
 	// the client was on a fallback server and that channel had no usable
@@ -141,10 +172,41 @@ type mRes struct {
 	viv int // valid/invalid/valid tracker
 }
 
+// mAuth is one authority (0 = top-level).
+type mAuth struct {
+	id     int
+	srvs   []int       // server indices in priority order
+	pos    map[int]int // server index -> position in srvs
+	active int         // position of the active server, -1 = no channel at all
+	held   []bool      // per position: the authority holds a reference on that server's channel
+	res    [2]map[string]*mRes
+}
+
+func (a *mAuth) anyResource() bool { return len(a.res[0])+len(a.res[1]) > 0 }
+
+// uncached reports (definitely uncached, gray): "requested" resources have no
+// cached value; a resource whose only responses were rejected has no cached
+// value either, but the implementation (like the other gRPC implementations)
+// does not count it -> gray zone, either decision is accepted.
+func (a *mAuth) uncached() (yes, gray bool) {
+	for t := 0; t < 2; t++ {
+		for _, r := range a.res[t] {
+			if r.status == stRequested {
+				yes = true
+			}
+			if r.status == stNacked && r.cache == "" {
+				gray = true
+			}
+		}
+	}
+	return yes, gray && !yes
+}
+
 type expReq struct {
 	srv, t         int
 	version, nonce string
 	names          []string
+	pre            []string // subscription list before the change that caused this request
 	nack           bool
 }
 
@@ -163,20 +225,43 @@ type expect struct {
 	closes []int
 }
 
+// observation of the client's reactions during the current op; used only at
+// the points where the statement leaves freedom (gray zones) or a listed
+// finding is recognised.
+type observed struct {
+	built  map[int]bool // servers to which a channel was created
+	closed map[int]bool // servers whose channel was closed
+	had    map[int]bool // servers that had a channel (per model) when the op started
+}
+
 type model struct {
 	n         int
 	ignoreDel []bool
 	expiry    time.Duration
 	srv       []*mServer
-	active    int
-	res       [2]map[string]*mRes
+	auths     []*mAuth
 	now       time.Time
 	exp       *expect
 	st        *Stats
 	known     map[string]string
 	// obsReq reports whether a request of type t listing name was sent to
-	// server srv during the current op.
-	obsReq func(srv, t int, name string) bool
+	// server srv during the current op; obsReqWithout whether one of type t
+	// NOT listing name was.
+	obsReq        func(srv, t int, name string) bool
+	obsReqWithout func(srv, t int, name string) bool
+	// unobservable: a gray-zone decision of the client could not be read off
+	// its reactions in this op; the case is stopped (not a verdict).
+	unobservable string
+}
+
+func newAuth(id int, srvs []int) *mAuth {
+	a := &mAuth{id: id, srvs: srvs, pos: map[int]int{}, active: -1, held: make([]bool, len(srvs))}
+	for p, s := range srvs {
+		a.pos[s] = p
+	}
+	a.res[0] = map[string]*mRes{}
+	a.res[1] = map[string]*mRes{}
+	return a
 }
 
 func (m *model) names(mt *mType) []string {
@@ -190,9 +275,13 @@ func (m *model) names(mt *mType) []string {
 
 func (m *model) sendable(i int) bool { return m.srv[i].conn == cUp && !m.srv[i].broken }
 
-func (m *model) expectReq(i, t int, nack bool) {
+func (m *model) expectReq(i, t int, nack bool, pre []string) {
 	mt := m.srv[i].types[t]
-	m.exp.reqs = append(m.exp.reqs, expReq{srv: i, t: t, version: mt.version, nonce: mt.nonce, names: m.names(mt), nack: nack})
+	names := m.names(mt)
+	if pre == nil {
+		pre = names
+	}
+	m.exp.reqs = append(m.exp.reqs, expReq{srv: i, t: t, version: mt.version, nonce: mt.nonce, names: names, pre: pre, nack: nack})
 }
 
 func (m *model) startTimers(i, t int, names []string) {
@@ -207,10 +296,11 @@ func (m *model) startTimers(i, t int, names []string) {
 
 func (m *model) subscribe(i, t int, name string) {
 	mt := m.srv[i].types[t]
+	pre := m.names(mt)
 	mt.hasState = true
 	mt.subs[name] = &mWatchState{state: wsStarted}
 	if m.sendable(i) {
-		m.expectReq(i, t, false)
+		m.expectReq(i, t, false, pre)
 		m.startTimers(i, t, m.names(mt))
 	}
 }
@@ -220,10 +310,11 @@ func (m *model) unsubscribe(i, t int, name string) {
 	if _, ok := mt.subs[name]; !ok {
 		return
 	}
+	pre := m.names(mt)
 	delete(mt.subs, name)
 	m.st.Unsubscribes++
 	if m.sendable(i) {
-		m.expectReq(i, t, false)
+		m.expectReq(i, t, false, pre)
 	}
 }
 
@@ -238,9 +329,11 @@ func (m *model) closeChannel(i int) {
 		return
 	}
 	m.srv[i] = freshServer()
-	for t := 0; t < 2; t++ {
-		for _, r := range m.res[t] {
-			delete(r.opt, i)
+	for _, a := range m.auths {
+		for t := 0; t < 2; t++ {
+			for _, r := range a.res[t] {
+				delete(r.opt, i)
+			}
 		}
 	}
 	m.exp.closes = append(m.exp.closes, i)
@@ -248,20 +341,54 @@ func (m *model) closeChannel(i int) {
 	m.st.ChannelCloses++
 }
 
-func (m *model) anyResource() bool { return len(m.res[0])+len(m.res[1]) > 0 }
+// acquire: authority a takes a reference on the channel of its p-th server;
+// the channel is created if nobody holds one.
+func (m *model) acquire(a *mAuth, p int) {
+	i := a.srvs[p]
+	if len(m.srv[i].refs) == 0 {
+		m.buildChannel(i)
+	} else {
+		m.st.SharedAcquire++
+	}
+	m.srv[i].refs[a.id] = true
+	a.held[p] = true
+}
+
+// release: authority a drops its reference; the channel is closed iff it was
+// the last one.
+func (m *model) release(a *mAuth, p int) {
+	if !a.held[p] {
+		return
+	}
+	a.held[p] = false
+	i := a.srvs[p]
+	for t := 0; t < 2; t++ {
+		for _, r := range a.res[t] {
+			delete(r.opt, i)
+		}
+	}
+	delete(m.srv[i].refs, a.id)
+	if len(m.srv[i].refs) == 0 {
+		m.closeChannel(i)
+	} else {
+		m.st.ReleaseKeepsOpen++
+	}
+}
 
 func (m *model) watch(w *Watcher) {
-	if m.active < 0 {
-		m.buildChannel(0)
-		m.active = 0
+	a := m.auths[w.A]
+	if a.active < 0 {
+		m.acquire(a, 0)
+		a.active = 0
 	}
-	r := m.res[w.T][w.Name]
+	act := a.srvs[a.active]
+	r := a.res[w.T][w.Name]
 	if r == nil {
-		r = &mRes{status: stRequested, chans: map[int]bool{m.active: true}, opt: map[int]bool{}}
-		m.res[w.T][w.Name] = r
-		m.subscribe(m.active, w.T, w.Name)
-		for j := 0; j < m.n; j++ {
-			if j == m.active || m.srv[j].conn == cNone {
+		r = &mRes{status: stRequested, chans: map[int]bool{act: true}, opt: map[int]bool{}}
+		a.res[w.T][w.Name] = r
+		m.subscribe(act, w.T, w.Name)
+		for p, j := range a.srvs {
+			if p == a.active || !a.held[p] {
 				continue
 			}
 			if !m.sendable(j) {
@@ -293,7 +420,8 @@ func errKind(r *mRes) string {
 }
 
 func (m *model) unwatch(w *Watcher) {
-	r := m.res[w.T][w.Name]
+	a := m.auths[w.A]
+	r := a.res[w.T][w.Name]
 	if r == nil {
 		return
 	}
@@ -306,24 +434,24 @@ func (m *model) unwatch(w *Watcher) {
 	if len(r.watchers) > 0 {
 		return
 	}
-	for i := 0; i < m.n; i++ {
+	for _, i := range a.srvs {
 		if r.chans[i] {
 			m.unsubscribe(i, w.T, w.Name)
 		}
 	}
-	delete(m.res[w.T], w.Name)
-	if !m.anyResource() {
-		for i := 0; i < m.n; i++ {
-			m.closeChannel(i)
+	delete(a.res[w.T], w.Name)
+	if !a.anyResource() {
+		for p := range a.srvs {
+			m.release(a, p)
 		}
-		m.active = -1
+		a.active = -1
 	}
 }
 
-func (m *model) propagateConnErr(optional bool) {
+func (m *model) propagateConnErr(a *mAuth, optional bool) {
 	for t := 0; t < 2; t++ {
-		for _, name := range sortedKeys(m.res[t]) {
-			r := m.res[t][name]
+		for _, name := range sortedKeys(a.res[t]) {
+			r := a.res[t][name]
 			for _, w := range r.watchers {
 				m.exp.calls = append(m.exp.calls, expCall{w: w, kind: errKind(r), optional: optional})
 			}
@@ -340,30 +468,12 @@ func sortedKeys(mp map[string]*mRes) []string {
 	return k
 }
 
-// uncached reports (definitely uncached, gray): "requested" resources have no
-// cached value; a resource whose only responses were rejected has no cached
-// value either, but the implementation (like the other gRPC implementations)
-// does not count it -> gray zone, either decision is accepted.
-func (m *model) uncached() (yes, gray bool) {
-	for t := 0; t < 2; t++ {
-		for _, r := range m.res[t] {
-			if r.status == stRequested {
-				yes = true
-			}
-			if r.status == stNacked && r.cache == "" {
-				gray = true
-			}
-		}
-	}
-	return yes, gray && !yes
-}
-
 // streamFailed models the client observing a stream failure on server i
-// (Recv error or NewStream error). observedBuild is the server index of a
-// channel built during this op (-1 if none): it selects the branch at the two
-// points where the statement leaves freedom or the implementation is known to
-// deviate.
-func (m *model) streamFailed(i int, afterMsg bool, observedBuild int) {
+// (Recv error or NewStream error). Every authority that holds the channel is
+// notified and decides on its own. obs (what the client did in this op)
+// selects the branch at the points where the statement leaves freedom or the
+// implementation is known to deviate.
+func (m *model) streamFailed(i int, afterMsg bool, obs observed) {
 	s := m.srv[i]
 	for t := 0; t < 2; t++ {
 		for _, ws := range s.types[t].subs {
@@ -382,60 +492,153 @@ func (m *model) streamFailed(i int, afterMsg bool, observedBuild int) {
 	}
 	s.conn = cBackoff
 	m.st.StreamFailNoMsg++
-	yes, gray := m.uncached()
+	ids := s.refIDs()
+	if len(ids) > 1 {
+		m.st.SharedFailures++
+	}
+	for _, id := range ids {
+		m.authStreamFailed(m.auths[id], i, obs)
+	}
+}
+
+// observedFallback: did authority a take the channel of its q-th server into
+// use in this op? ok=false: cannot be told from the client's reactions.
+func (m *model) observedFallback(a *mAuth, q int, obs observed) (did, ok bool) {
+	j := a.srvs[q]
+	if !obs.had[j] {
+		if m.srv[j].conn != cNone {
+			// created in this very op on behalf of another authority
+			return false, false
+		}
+		return obs.built[j], true
+	}
+	if !m.sendable(j) {
+		return false, false
+	}
+	for t := 0; t < 2; t++ {
+		for _, name := range sortedKeys(a.res[t]) {
+			return m.obsReq(j, t, name), true
+		}
+	}
+	return false, false
+}
+
+func (m *model) authStreamFailed(a *mAuth, i int, obs observed) {
+	p := a.pos[i]
+	yes, gray := a.uncached()
 	next := -1
-	for j := i + 1; j < m.n; j++ {
-		if m.srv[j].conn == cNone {
-			next = j
+	for q := p + 1; q < len(a.srvs); q++ {
+		if !a.held[q] {
+			next = q
 			break
 		}
 	}
 	fallback := false
 	switch {
 	case next < 0:
-	case yes && i == m.active:
+	case yes && p == a.active:
 		fallback = true
-	case yes && i != m.active:
+	case yes && p != a.active:
 		// Statement: switch "only when the active server's stream failed".
-		// The implementation falls back from whichever server failed.
-		if observedBuild == next {
-			m.known[SigFallbackNonActive] = fmt.Sprintf("stream to server %d failed while server %d was active; client created a channel to server %d", i, m.active, next)
+		// (The implementation used to fall back from whichever server failed.)
+		if did, ok := m.observedFallback(a, next, obs); ok && did {
+			m.known[SigFallbackNonActive] = fmt.Sprintf("stream to server %d failed while server %d was active for authority %d; the client took server %d into use", i, a.srvs[a.active], a.id, a.srvs[next])
 			fallback = true
 		}
-	case gray && i == m.active:
-		fallback = observedBuild == next
+	case gray && p == a.active:
+		did, ok := m.observedFallback(a, next, obs)
+		if !ok {
+			m.unobservable = "gray fallback decision (only rejected resources uncached) onto a channel without observable reaction"
+		}
+		fallback = did
 	}
 	if fallback {
-		m.buildChannel(next)
-		m.active = next
+		j := a.srvs[next]
+		shared := len(m.srv[j].refs) > 0
+		m.acquire(a, next)
+		a.active = next
 		m.st.Fallbacks++
+		if shared {
+			m.st.SharedFallbacks++
+		}
 		for t := 0; t < 2; t++ {
-			for _, name := range sortedKeys(m.res[t]) {
-				m.subscribe(next, t, name)
-				m.res[t][name].chans[next] = true
+			for _, name := range sortedKeys(a.res[t]) {
+				m.subscribe(j, t, name)
+				a.res[t][name].chans[j] = true
 			}
 		}
 		return
 	}
 	// A failure of a server other than the active one: the statement does not
 	// say whether watchers hear about it (grpc-go: yes, C++: no).
-	m.propagateConnErr(i != m.active)
+	m.propagateConnErr(a, p != a.active)
 }
 
-func (m *model) revertTo(i int) {
-	if i >= m.active {
+// revertTo: authority a makes its p-th server the active one: every
+// lower-priority server is unsubscribed from (a's names only) and released.
+func (m *model) revertTo(a *mAuth, p int) {
+	if p >= a.active {
 		return
 	}
 	m.st.Reverts++
-	for j := i + 1; j < m.n; j++ {
+	shared, sharedUnsub := false, false
+	for q := p + 1; q < len(a.srvs); q++ {
+		j := a.srvs[q]
+		others := len(m.srv[j].refs) > 1 && a.held[q]
 		for t := 0; t < 2; t++ {
-			for _, r := range m.res[t] {
-				delete(r.chans, j)
+			for _, name := range sortedKeys(a.res[t]) {
+				r := a.res[t][name]
+				if r.chans[j] {
+					if others && m.sendable(j) {
+						sharedUnsub = true
+					}
+					m.unsubscribe(j, t, name)
+					delete(r.chans, j)
+				}
+				delete(r.opt, j)
 			}
 		}
-		m.closeChannel(j)
+		if others {
+			shared = true
+		}
+		m.release(a, q)
 	}
-	m.active = i
+	a.active = p
+	if shared {
+		m.st.SharedReverts++
+	}
+	if sharedUnsub {
+		m.st.SharedRevertUnsub++
+	}
+}
+
+// observedRevert: did authority a leave its servers below position p in this
+// op? ok=false: cannot be told from the client's reactions.
+func (m *model) observedRevert(a *mAuth, p int, obs observed) (did, ok bool) {
+	for q := p + 1; q < len(a.srvs); q++ {
+		if !a.held[q] {
+			continue
+		}
+		j := a.srvs[q]
+		if obs.closed[j] {
+			// closed = every holder, a included, has released it
+			return true, true
+		}
+		if len(m.srv[j].refs) == 1 {
+			return false, true
+		}
+		if !m.sendable(j) {
+			continue
+		}
+		for t := 0; t < 2; t++ {
+			for _, name := range sortedKeys(a.res[t]) {
+				if a.res[t][name].chans[j] {
+					return m.obsReqWithout(j, t, name), true
+				}
+			}
+		}
+	}
+	return false, false
 }
 
 type decoded struct {
@@ -445,13 +648,14 @@ type decoded struct {
 	payload string
 }
 
-func decodeSpecs(res []ResSpec) (items []decoded, nack bool) {
+func decodeSpecs(t int, res []ResSpec) (items []decoded, nack bool) {
 	for _, rs := range res {
+		name := ResNameA(rs.A, t, rs.N)
 		switch rs.Kind {
 		case 0:
-			items = append(items, decoded{name: ResName(rs.N), payload: rs.Payload()})
+			items = append(items, decoded{name: name, payload: rs.Payload(t)})
 		case 1:
-			items = append(items, decoded{name: ResName(rs.N), bad: true, reason: fmt.Sprintf("%s:%d", ResName(rs.N), rs.V)})
+			items = append(items, decoded{name: name, bad: true, reason: fmt.Sprintf("%s:%d", name, rs.V)})
 			nack = true
 		default:
 			nack = true
@@ -460,16 +664,12 @@ func decodeSpecs(res []ResSpec) (items []decoded, nack bool) {
 	return items, nack
 }
 
-// respond models a response of registered type t on server i.
-//
-// observedClose reports whether the client released a channel in this op: a
-// response from a higher-priority server that carries no valid resource at
-// all (empty, or everything rejected) is a gray zone for "delivers an update"
-// - the client may or may not revert on it.
-func (m *model) respond(i, t int, version, nonce string, res []ResSpec, observedClose bool) {
+// respond models a response of registered type t on server i: the channel
+// ACKs/NACKs it, and every authority that holds the channel processes it.
+func (m *model) respond(i, t int, version, nonce string, res []ResSpec, obs observed) {
 	s := m.srv[i]
 	s.gotMsg = true
-	items, nack := decodeSpecs(res)
+	items, nack := decodeSpecs(t, res)
 	mt := s.types[t]
 	// wire
 	for _, it := range items {
@@ -484,28 +684,51 @@ func (m *model) respond(i, t int, version, nonce string, res []ResSpec, observed
 		mt.version = version
 		m.st.Acks++
 	}
-	m.expectReq(i, t, nack)
-	// authority
-	if m.active < 0 || i > m.active {
+	m.expectReq(i, t, nack, nil)
+	// authorities
+	ids := s.refIDs()
+	if len(ids) > 1 {
+		m.st.SharedResponses++
+	}
+	for _, id := range ids {
+		m.authRespond(m.auths[id], i, t, items, obs)
+	}
+}
+
+// authRespond: authority a processes a response from server i.
+//
+// A response from a server with higher priority than a's active one that
+// carries no valid resource at all (empty, or everything rejected) is a gray
+// zone for "delivers an update" - the client may or may not revert on it.
+func (m *model) authRespond(a *mAuth, i, t int, items []decoded, obs observed) {
+	p := a.pos[i]
+	if a.active < 0 || p > a.active {
 		return
 	}
-	if i < m.active {
+	if p < a.active {
 		definite := false
 		for _, it := range items {
 			if !it.bad {
 				definite = true
 			}
 		}
-		if !definite && !observedClose {
-			m.st.GrayNoRevert++
-			return
+		if !definite {
+			did, ok := m.observedRevert(a, p, obs)
+			if !ok {
+				m.unobservable = "gray revert decision (response without a valid resource) without observable reaction"
+				return
+			}
+			if !did {
+				m.st.GrayNoRevert++
+				return
+			}
 		}
 	}
-	m.revertTo(i)
+	m.revertTo(a, p)
 	inResp := map[string]bool{}
 	for _, it := range items {
 		inResp[it.name] = true
-		r := m.res[t][it.name]
+		r := a.res[t][it.name]
 		if r == nil {
 			continue
 		}
@@ -545,8 +768,8 @@ func (m *model) respond(i, t int, version, nonce string, res []ResSpec, observed
 	if !Types[t].AllRequired {
 		return
 	}
-	for _, name := range sortedKeys(m.res[t]) {
-		r := m.res[t][name]
+	for _, name := range sortedKeys(a.res[t]) {
+		r := a.res[t][name]
 		if r.cache == "" || inResp[name] {
 			continue
 		}
@@ -574,17 +797,19 @@ func (m *model) granted(i int) {
 	s.nodeSent = false
 	s.stalled = false
 	s.streams++
-	for t := 0; t < 2; t++ {
-		for _, name := range sortedKeys(m.res[t]) {
-			r := m.res[t][name]
-			if !r.opt[i] {
-				continue
-			}
-			delete(r.opt, i)
-			if m.obsReq(i, t, name) {
-				s.types[t].hasState = true
-				s.types[t].subs[name] = &mWatchState{state: wsStarted}
-				r.chans[i] = true
+	for _, a := range m.auths {
+		for t := 0; t < 2; t++ {
+			for _, name := range sortedKeys(a.res[t]) {
+				r := a.res[t][name]
+				if !r.opt[i] {
+					continue
+				}
+				delete(r.opt, i)
+				if m.obsReq(i, t, name) {
+					s.types[t].hasState = true
+					s.types[t].subs[name] = &mWatchState{state: wsStarted}
+					r.chans[i] = true
+				}
 			}
 		}
 	}
@@ -599,12 +824,23 @@ func (m *model) granted(i int) {
 			continue
 		}
 		withSubs = true
-		m.expectReq(i, t, false)
+		m.expectReq(i, t, false, nil)
 		m.startTimers(i, t, m.names(mt))
 	}
 	if withSubs && s.streams > 1 {
 		m.st.RestartsWithSubs++
 	}
+}
+
+// owner returns the resource state of (t, name) in whichever authority owns
+// the name (names of different authorities are distinct).
+func (m *model) owner(t int, name string) *mRes {
+	for _, a := range m.auths {
+		if r := a.res[t][name]; r != nil {
+			return r
+		}
+	}
+	return nil
 }
 
 // advanceTo fires the watch-expiry timers that are due.
@@ -640,7 +876,7 @@ func (m *model) advanceTo(now time.Time) {
 	for _, d := range ds {
 		m.srv[d.i].types[d.t].subs[d.name].state = wsTimeout
 		m.st.Expiries++
-		r := m.res[d.t][d.name]
+		r := m.owner(d.t, d.name)
 		if r == nil {
 			continue
 		}
@@ -736,6 +972,7 @@ func Execute(t *testing.T, p Plan, aspects int) Report {
 	if p.Servers > 3 {
 		p.Servers = 3
 	}
+	p.Auths = NormAuths(p.Servers, p.Auths)
 	msg := vk.Bubble(t, func(t *testing.T) {
 		e := &exec{p: p, aspects: aspects, rep: &rep}
 		e.run()
@@ -746,22 +983,51 @@ func Execute(t *testing.T, p Plan, aspects int) Report {
 	return rep
 }
 
+// NormAuths makes the authority lists of a plan well-formed: at most 3 named
+// authorities, indices modulo the number of servers, duplicates dropped.
+func NormAuths(servers int, auths [][]int) [][]int {
+	if len(auths) > 3 {
+		auths = auths[:3]
+	}
+	var out [][]int
+	for _, l := range auths {
+		seen := map[int]bool{}
+		n := []int{}
+		for _, x := range l {
+			x = abs(x) % servers
+			if !seen[x] {
+				seen[x] = true
+				n = append(n, x)
+			}
+		}
+		out = append(out, n)
+	}
+	return out
+}
+
 func (e *exec) run() {
 	p := e.p
 	ign := make([]bool, p.Servers)
 	copy(ign, p.IgnoreDel)
-	rig, err := New(Options{Servers: p.Servers, IgnoreDel: ign, Expiry: DefaultExpiry})
+	rig, err := New(Options{Servers: p.Servers, IgnoreDel: ign, Expiry: DefaultExpiry, Auths: p.Auths})
 	if err != nil {
 		e.rep.Violation = "xdsclient.New failed: " + err.Error()
 		return
 	}
 	e.rig = rig
-	e.m = &model{n: p.Servers, ignoreDel: ign, expiry: DefaultExpiry, active: -1, now: time.Now(), st: &e.rep.Stats, known: e.rep.Known}
+	e.m = &model{n: p.Servers, ignoreDel: ign, expiry: DefaultExpiry, now: time.Now(), st: &e.rep.Stats, known: e.rep.Known}
+	top := make([]int, p.Servers)
 	for i := 0; i < p.Servers; i++ {
 		e.m.srv = append(e.m.srv, freshServer())
+		top[i] = i
 	}
-	e.m.res[0] = map[string]*mRes{}
-	e.m.res[1] = map[string]*mRes{}
+	e.m.auths = []*mAuth{newAuth(0, top)}
+	for k, l := range p.Auths {
+		if len(l) == 0 {
+			l = top // an authority without servers of its own uses the top-level list
+		}
+		e.m.auths = append(e.m.auths, newAuth(k+1, append([]int(nil), l...)))
+	}
 	defer func() {
 		// Shut down: optionally release held callbacks first, then Close.
 		e.curOp = len(p.Ops)
@@ -820,6 +1086,14 @@ func (e *exec) run() {
 	flag(st.DupNack > 0, "duplicate_nack")
 	flag(st.GrayNoRevert > 0, "gray_response_without_revert")
 	flag(p.Servers > 1, fmt.Sprintf("servers_%d", p.Servers))
+	flag(len(p.Auths) > 0, fmt.Sprintf("authorities_%d", 1+len(p.Auths)))
+	flag(st.SharedAcquire > 0, "shared_channel")
+	flag(st.SharedFallbacks > 0, "fallback_onto_shared_channel")
+	flag(st.SharedReverts > 0, "revert_with_shared_fallback_channel")
+	flag(st.SharedRevertUnsub > 0, "revert_unsubscribes_on_live_shared_stream")
+	flag(st.ReleaseKeepsOpen > 0, "release_keeps_channel_open")
+	flag(st.SharedFailures > 0, "stream_failure_seen_by_2plus_authorities")
+	flag(st.SharedResponses > 0, "response_on_shared_channel")
 	flag(st.Skipped > st.Applied, "mostly_skipped_ops")
 }
 
@@ -828,20 +1102,31 @@ func (e *exec) step(op Op) bool {
 	m, rig := e.m, e.rig
 	m.exp = &expect{loose: map[int]bool{}}
 	r0, c0, h0 := rig.Snapshot()
-	m.obsReq = func(srv, t int, name string) bool {
+	scan := func(srv, t int, name string, with bool) bool {
 		reqs, _, _ := rig.Since(r0, c0, h0)
 		for _, r := range reqs {
 			if r.Server != srv || r.TypeURL != Types[t].URL {
 				continue
 			}
+			has := false
 			for _, n := range r.Names {
 				if n == name {
-					return true
+					has = true
 				}
+			}
+			if has == with {
+				return true
 			}
 		}
 		return false
 	}
+	m.obsReq = func(srv, t int, name string) bool { return scan(srv, t, name, true) }
+	m.obsReqWithout = func(srv, t int, name string) bool { return scan(srv, t, name, false) }
+	had := map[int]bool{}
+	for i, s := range m.srv {
+		had[i] = s.conn != cNone
+	}
+	m.unobservable = ""
 	m.now = time.Now()
 	applied := true
 	needSleep := false
@@ -850,8 +1135,9 @@ func (e *exec) step(op Op) bool {
 	switch op.K {
 	case "watch":
 		t := op.T & 1
-		name := ResName(abs(op.N) % maxNames)
-		w := rig.Watch(t, name, op.Hold)
+		a := abs(op.A) % len(m.auths)
+		name := ResNameA(a, t, abs(op.N)%maxNames)
+		w := rig.WatchAuth(a, t, name, op.Hold)
 		e.live = append(e.live, w)
 		rig.Settle()
 		m.watch(w)
@@ -892,8 +1178,13 @@ func (e *exec) step(op Op) bool {
 				break
 			}
 		}
+		res := make([]ResSpec, len(op.Res))
+		for k, rs := range op.Res {
+			rs.A = abs(rs.A) % len(m.auths)
+			res[k] = rs
+		}
 		if t == 2 {
-			tr.Cur().Push(MarshalResponse(UnknownURL, version, nonce, op.Res))
+			tr.Cur().Push(MarshalResponse(2, version, nonce, res))
 			rig.Settle()
 			m.srv[i].gotMsg = true
 			m.st.UnknownResp++
@@ -904,9 +1195,9 @@ func (e *exec) step(op Op) bool {
 				m.known[SigUnknownTypeStall] = fmt.Sprintf("after a response with unregistered type URL on server %d the client never calls Recv again", i)
 			}
 		} else {
-			tr.Cur().Push(MarshalResponse(Types[t].URL, version, nonce, op.Res))
+			tr.Cur().Push(MarshalResponse(t, version, nonce, res))
 			rig.Settle()
-			m.respond(i, t, version, nonce, op.Res, e.closedSince(h0))
+			m.respond(i, t, version, nonce, res, e.observe(h0, had))
 		}
 	case "break":
 		cands := e.servers(func(i int) bool { return m.srv[i].conn == cUp && !m.srv[i].broken })
@@ -920,7 +1211,7 @@ func (e *exec) step(op Op) bool {
 		rig.Settle()
 		m.srv[i].broken = true
 		if wasReading {
-			m.streamFailed(i, m.srv[i].gotMsg, e.builtSince(h0))
+			m.streamFailed(i, m.srv[i].gotMsg, e.observe(h0, had))
 			needSleep = m.srv[i].conn == cBackoff
 		} else {
 			e.class("break_unnoticed")
@@ -941,7 +1232,7 @@ func (e *exec) step(op Op) bool {
 		if op.Accept {
 			m.granted(i)
 		} else {
-			m.streamFailed(i, false, e.builtSince(h0))
+			m.streamFailed(i, false, e.observe(h0, had))
 			needSleep = true
 		}
 	case "release":
@@ -964,7 +1255,7 @@ func (e *exec) step(op Op) bool {
 		for i := 0; i < m.n; i++ {
 			s := m.srv[i]
 			if s.conn == cUp && s.broken && !s.stalled && !e.fcBlocked(i) {
-				m.streamFailed(i, s.gotMsg, e.builtSince(h0))
+				m.streamFailed(i, s.gotMsg, e.observe(h0, had))
 				if m.srv[i].conn == cBackoff {
 					needSleep = true
 				}
@@ -991,6 +1282,11 @@ func (e *exec) step(op Op) bool {
 		return false
 	}
 	e.rep.Stats.Applied++
+	if m.unobservable != "" {
+		// not a verdict: the model cannot follow the client any further
+		e.class("stopped_unobservable_gray_decision")
+		return true
+	}
 	if needSleep {
 		time.Sleep(reconnectSleep)
 		rig.Settle()
@@ -1011,30 +1307,34 @@ func abs(x int) int {
 	return x
 }
 
-// builtSince returns the server index of the (last) channel built since the
-// snapshot, -1 if none.
-func (e *exec) builtSince(h0 int) int {
+// observe collects the channels built / closed since the snapshot.
+func (e *exec) observe(h0 int, had map[int]bool) observed {
 	r, c, _ := e.rig.Snapshot()
 	_, _, ch := e.rig.Since(r, c, h0)
-	b := -1
-	for _, c := range ch {
-		if c.Kind == "build" {
-			b = c.Server
+	o := observed{built: map[int]bool{}, closed: map[int]bool{}, had: had}
+	for _, x := range ch {
+		if x.Kind == "build" {
+			o.built[x.Server] = true
+		} else {
+			o.closed[x.Server] = true
 		}
 	}
-	return b
+	return o
 }
 
-// closedSince reports whether a transport was closed since the snapshot.
-func (e *exec) closedSince(h0 int) bool {
-	r, c, _ := e.rig.Snapshot()
-	_, _, ch := e.rig.Since(r, c, h0)
-	for _, x := range ch {
-		if x.Kind == "close" {
-			return true
+func subset(a []string, of ...[]string) bool {
+	in := map[string]bool{}
+	for _, l := range of {
+		for _, x := range l {
+			in[x] = true
 		}
 	}
-	return false
+	for _, x := range a {
+		if !in[x] {
+			return false
+		}
+	}
+	return true
 }
 
 func sameSet(a, b []string) bool {
@@ -1079,7 +1379,7 @@ func (e *exec) verify(r0, c0, h0 int) bool {
 	sort.Ints(eb)
 	sort.Ints(ec)
 	if fmt.Sprint(gotB) != fmt.Sprint(eb) || fmt.Sprint(gotC) != fmt.Sprint(ec) {
-		return e.fail(AspFallback, "channels: client created channels to servers %v and released %v; A71 model expects created %v, released %v (active server before/after per model: %d)", gotB, gotC, eb, ec, m.active)
+		return e.fail(AspFallback, "channels: client created channels to servers %v and released %v; A71 model expects created %v, released %v (%s)", gotB, gotC, eb, ec, m.describe())
 	}
 	for i := 0; i < m.n; i++ {
 		want := 0
@@ -1129,35 +1429,57 @@ func (e *exec) verify(r0, c0, h0 int) bool {
 				return e.fail(AspWire, "node identity repeated on a later request of the same stream: %s", r)
 			}
 		}
-		// exact multiset match by type (at most one request per type per op)
+		// Per type: the same number of requests as subscription changes /
+		// responses the model saw in this op. Each request is a snapshot of the
+		// subscription list taken when the change was made; several authorities
+		// (or several resources of one authority during a fallback / revert)
+		// may change the list of one shared stream in one op, in an order the
+		// statement does not fix. So: the LAST request of a type must carry
+		// exactly the final list (and version / nonce / error detail); earlier
+		// ones must have the size of the model's corresponding snapshot (every
+		// change adds or removes one name) and list only names that were
+		// subscribed before or after the op.
 		if len(got) != len(want) {
 			return e.fail(AspWire|AspWatch|AspFallback, "requests to server %d: got %v, protocol model expects %s", i, got, fmtExp(want))
 		}
-		used := make([]bool, len(got))
-		for _, w := range want {
-			found := false
-			for k, r := range got {
-				if used[k] || r.TypeURL != Types[w.t].URL {
-					continue
+		for t := 0; t < 2; t++ {
+			var g []*Request
+			var w []expReq
+			for _, r := range got {
+				if r.TypeURL == Types[t].URL {
+					g = append(g, r)
 				}
-				used[k] = true
-				found = true
+			}
+			for _, x := range want {
+				if x.t == t {
+					w = append(w, x)
+				}
+			}
+			if len(g) != len(w) {
+				return e.fail(AspWire|AspWatch|AspFallback, "requests to server %d: got %v, protocol model expects %s", i, got, fmtExp(want))
+			}
+			for k, r := range g {
+				x := w[k]
+				last := k == len(g)-1
 				switch {
-				case r.Version != w.version:
-					return e.fail(AspWire, "request %s carries version %q; last accepted version of that type is %q", r, r.Version, w.version)
-				case r.Nonce != w.nonce:
-					return e.fail(AspWire, "request %s carries nonce %q; nonce of the latest response of that type on this stream is %q", r, r.Nonce, w.nonce)
-				case !sameSet(r.Names, w.names):
-					return e.fail(AspWire|AspWatch|AspFallback, "request %s lists %v; currently subscribed names are %v", r, sortedCopy(r.Names), w.names)
-				case w.nack && (!r.HasErr || r.ErrMsg == ""):
+				case r.Version != x.version:
+					return e.fail(AspWire, "request %s carries version %q; last accepted version of that type is %q", r, r.Version, x.version)
+				case r.Nonce != x.nonce:
+					return e.fail(AspWire, "request %s carries nonce %q; nonce of the latest response of that type on this stream is %q", r, r.Nonce, x.nonce)
+				case last && !sameSet(r.Names, x.names):
+					return e.fail(AspWire|AspWatch|AspFallback, "request %s lists %v; currently subscribed names are %v", r, sortedCopy(r.Names), x.names)
+				case !last && (len(r.Names) != len(x.names) || !subset(r.Names, w[0].pre, w[len(w)-1].names)):
+					return e.fail(AspWire|AspWatch|AspFallback, "request %s (one of %d of that type in this step) lists %v; the subscription list goes from %v to %v, this snapshot should have %d names", r, len(g), sortedCopy(r.Names), w[0].pre, w[len(w)-1].names, len(x.names))
+				case x.nack && (!r.HasErr || r.ErrMsg == ""):
 					return e.fail(AspWire, "rejected response was not NACKed with an error detail: %s", r)
-				case !w.nack && r.HasErr:
+				case !x.nack && r.HasErr:
 					return e.fail(AspWire, "request %s carries an error detail although no response was rejected", r)
 				}
-				break
 			}
-			if !found {
-				return e.fail(AspWire|AspWatch|AspFallback, "requests to server %d: got %v, protocol model expects %s", i, got, fmtExp(want))
+		}
+		for _, r := range got {
+			if r.TypeURL != Types[0].URL && r.TypeURL != Types[1].URL {
+				return e.fail(AspWire, "request %s for a type nobody subscribed to", r)
 			}
 		}
 		// must be on the current stream
@@ -1268,10 +1590,14 @@ func (e *exec) verify(r0, c0, h0 int) bool {
 	}
 
 	// ---- statistic: is every watched resource subscribed on the active server?
-	if m.active >= 0 {
+	for _, a := range m.auths {
+		if a.active < 0 {
+			continue
+		}
+		act := a.srvs[a.active]
 		for t := 0; t < 2; t++ {
-			for _, name := range sortedKeys(m.res[t]) {
-				if _, ok := m.srv[m.active].types[t].subs[name]; !ok && !m.res[t][name].opt[m.active] {
+			for _, name := range sortedKeys(a.res[t]) {
+				if _, ok := m.srv[act].types[t].subs[name]; !ok && !a.res[t][name].opt[act] {
 					// Observation beyond the C44 statement (not asserted): a
 					// resource first watched while on a fallback server is
 					// requested from that server only; after the revert it is
@@ -1282,6 +1608,25 @@ func (e *exec) verify(r0, c0, h0 int) bool {
 		}
 	}
 	return false
+}
+
+// describe renders the authority layer of the model for messages.
+func (m *model) describe() string {
+	var parts []string
+	for _, a := range m.auths {
+		act := "none"
+		if a.active >= 0 {
+			act = fmt.Sprint(a.srvs[a.active])
+		}
+		var held []int
+		for p, h := range a.held {
+			if h {
+				held = append(held, a.srvs[p])
+			}
+		}
+		parts = append(parts, fmt.Sprintf("authority %d servers %v holds %v active %s", a.id, a.srvs, held, act))
+	}
+	return "per model after this step: " + strings.Join(parts, "; ")
 }
 
 func fmtExp(w []expReq) string {
